@@ -4,6 +4,7 @@ pub mod c04;
 pub mod c07;
 pub mod c08;
 pub mod c09;
+pub mod c10;
 pub mod c11;
 pub mod c12;
 pub mod lincheck;
@@ -19,6 +20,7 @@ pub fn dispatch(id: &str, args: &RunArgs) -> i32 {
         "C07" => run(&c07::C07, args),
         "C08" => run(&c08::C08, args),
         "C09" => run(&c09::C09, args),
+        "C10" => run(&c10::C10, args),
         "C11" => run(&c11::C11, args),
         "C12" => run(&c12::C12, args),
         "C04" => run(&c04::C04, args),
